@@ -313,3 +313,23 @@ func init() {
 		return Ptr{Obj: e.st.alloc(tv, tlsT, "tls.Conn")}, true
 	}
 }
+
+func init() {
+	// (*tls.Conn).NetConn: the connection below (the field the reflection walk looks for)
+	intrinsicsExtra["(*crypto/tls.Conn).NetConn"] = func(e *Engine, fr *Frame, args []Value) (Value, bool) {
+		p, ok := args[0].(Ptr)
+		if !ok || p.IsNil() {
+			e.goPanic("nil", "nil pointer dereference", nil)
+			panic(instrAbort{})
+		}
+		tlsT := e.namedType("crypto/tls", "Conn")
+		st := tlsT.Underlying().(*types.Struct)
+		for i := 0; i < st.NumFields(); i++ {
+			if st.Field(i).Name() == "conn" {
+				return e.st.load(p.Sub(i)), true
+			}
+		}
+		e.unsupported("tls.Conn has no conn field")
+		return nil, true
+	}
+}
